@@ -188,7 +188,9 @@ pub fn run(cases_path: &str, out_path: &str, tier: &str, seed: u64) {
     let keys: Vec<(&str, bool, SignedSecretKey)> = specs.iter().enumerate().map(|(i, (l, v6, a, e))| (*l, *v6, gen_key(seed ^ (0xC08 + i as u64), *v6, a, Some(e), l).expect("keygen"))).collect();
     let nontrivial = std::sync::atomic::AtomicU64::new(0);
 
+    let only_ci: Option<u64> = std::env::var("C08_ONLY_CI").ok().and_then(|x| x.parse().ok());
     cases.par_iter().enumerate().for_each(|(pi, c)| {
+        if let Some(o) = only_ci { if c["ci"].as_u64() != Some(o) { return; } }
         let ver6 = c["version"].as_u64().unwrap() == 6;
         let path = c["path"].as_array().unwrap();
         for (label, v6, key) in keys.iter().filter(|k| k.1 == ver6) {
@@ -260,8 +262,9 @@ pub fn run(cases_path: &str, out_path: &str, tier: &str, seed: u64) {
                                 let n = body.len();
                                 match what {
                                     "blob" => body[n - 1 - (pi % bl.max(1)).min(bl.saturating_sub(1))] ^= 1 << (si % 8),
-                                    "s2k" => body[n - bl - 1] ^= 0x10, // last octet of the IV / nonce
-                                    _ => body[4] ^= 1,                // creation time
+                                    // (a different bit per step, so that two tamperings never cancel each other)
+                                    "s2k" => body[n - bl - 1] ^= 1 << (si % 8), // last octet of the IV / nonce
+                                    _ => body[4] ^= 1 << (si % 8),                // creation time
                                 }
                                 let b = frame(true, cur.tag(), &[Chunk::Fixed(body.len())], &body, body.len(), false);
                                 cur = Sk::parse(&b)?;
@@ -276,7 +279,10 @@ pub fn run(cases_path: &str, out_path: &str, tier: &str, seed: u64) {
                     // the legacy usage octet is the cipher id (7 = AES-128 in the model and the encoder)
                     let usage_ok = usage_now == want_usage;
                     let ok = !r.is_panic() && !different_material && got == expect && (got == "err" || usage_ok);
-                    let key = if !ok && usage_now == 254 && want_usage == 255 { "usage_255_parsed_as_254" } else { "keylock" };
+                    // format limitation: usage 255 / legacy cipher octet protect the material with a 16-bit sum only; a change that CFB spreads over
+                    // a whole block passes that sum once in 65536 tries
+                    let sum16_collision = !ok && different_material && matches!(usage_now, 255 | 7) && path.iter().any(|s| s["act"] == "tamper" && s["arg"] == "blob");
+                    let key = if sum16_collision { "usage255_sum16_collision" } else if !ok && usage_now == 254 && want_usage == 255 { "usage_255_parsed_as_254" } else { "keylock" };
                     sink.put(rec("c08.step", cj, ok, key, json!({"got": got, "detail": r.detail(), "usage_now": usage_now, "usage_want": want_usage, "is_encrypted": cur.params().is_encrypted()})));
                     if !ok {
                         broken = Some(format!("step {si}"));
@@ -288,4 +294,26 @@ pub fn run(cases_path: &str, out_path: &str, tier: &str, seed: u64) {
         }
     });
     sink.finish(json!({"paths": cases.len(), "nontrivial": nontrivial.load(std::sync::atomic::Ordering::Relaxed)}));
+}
+
+pub fn dbg(seed: u64) {
+    let k = gen_key(seed, false, &Alg::Ed25519Legacy, Some(&EncAlg::Rsa2048), "dbg").unwrap();
+    let plain = Sk::S(k.secret_subkeys[0].key.clone());
+    let pw = Password::from("pw");
+    let b = from_wire_bytes(&plain, 255, "iterated", &pw, seed, 0).unwrap();
+    let locked = Sk::parse(&b).unwrap();
+    println!("unlock untampered: {:?}", locked.unlock(&pw).map(|_| ()).map_err(|e| e.to_string()));
+    let body = locked.body().unwrap();
+    let bl = locked.blob_len();
+    let n = body.len();
+    let mut accepted = Vec::new();
+    for back in 0..bl {
+        for bit in 0..8 {
+            let mut bb = body.clone();
+            bb[n - 1 - back] ^= 1 << bit;
+            let f = frame(true, locked.tag(), &[Chunk::Fixed(bb.len())], &bb, bb.len(), false);
+            if let Ok(t) = Sk::parse(&f) { if t.unlock(&pw).is_ok() { accepted.push((back, bit)); } }
+        }
+    }
+    println!("blob {} octets; tampered positions (from the end, bit) that still unlock: {} {:?}", bl, accepted.len(), &accepted[..accepted.len().min(40)]);
 }
